@@ -184,6 +184,10 @@ func checkC06(p *Prog, r *Report) {
 		}
 	}
 
+	// ---- NO-CROSS-SESSION-STATE ----
+	r.Rule("C06/NO-CROSS-SESSION-STATE", "code reachable from package sender references no process-wide mutable state (buffer pools, caches) beyond the reviewed allow-table: bytes read for one session can never be handed to another", 2)
+	checkSharedStateUse(p, r, "C06/NO-CROSS-SESSION-STATE", scopeFuncs)
+
 	// ---- MODULE-FROM-TABLE ----
 	r.Rule("C06/MODULE-FROM-TABLE", "getModule returns (with nil error) only elements of Server.modules; HandleDaemonConn hands handleConn the address of that result", 2)
 	gm := anchorFunc(p, r, pkgRsyncd, "Server", "getModule")
